@@ -46,6 +46,10 @@ for arch, vdef in (("avx2", "VEC_LEN=32"), ("sse", "VEC_LEN=16")):
         id="C05.StringBlock@" + arch, src="c05_string.c", harness="h_StringBlock", units=sbu, defs=[vdef], arch=arch, route="L", function="StringBlock::Find + predicates",
         unwind=34, replay="stringblock", timeout=900,
         claims="all VEC_LEN-byte blocks: the three masks equal the per-byte predicates (backslash, quote, < 0x20); HasQuoteFirst/HasBackslash/HasUnescaped/QuoteIndex/BsIndex describe the first special byte; reads exactly VEC_LEN bytes"))
+    PROPS["C05"]["jobs"].append(dict(
+        id="C05.parseStringInplace.classify@" + arch, src="c05_string.c", harness="h_classify", units=sbu + ["parseStringInplace.classify"], defs=[vdef], arch=arch, route="L",
+        function="parseStringInplace: second-phase block classification (verbatim fragment)", unwind=34, replay="stringblock", timeout=600,
+        claims="all VEC_LEN-byte blocks: the three masks built inline under find_and_move equal the per-byte predicates for every lane (the loop around it is undecided)"))
     # parseStringInplace (h_parseStringInplace in specs/c05_string.c): bounded jobs at raw length 8, VEC_LEN+4 and VEC_LEN+8 did not
     # finish within 15-25 min; no job runs it (DESIGN section 12).
 
@@ -377,3 +381,10 @@ _INFO = {
 for _p, _d in _INFO.items():
     PROPS[_p]["assumptions"] = _COMMON_ASSUME + (_MODEL_ASSUME if _p in ("C05", "C09", "C11", "C14", "C15", "C08") else []) + _d["assumptions"]
     PROPS[_p]["undecided"] = _d["undecided"]
+
+
+# ===================================================================================== supporting static fact: no hidden state in the sliced functions
+for _p in ("C04", "C05", "C06", "C08", "C09", "C11", "C14", "C15", "C16"):
+    PROPS[_p]["native"] = PROPS[_p].get("native", []) + [dict(
+        id="static_locals", kind="script", src="tools/static_locals.py", args=[_p],
+        obligation="%s.stateless: no function under contract for this property declares a mutable function-local static (its result would depend on earlier calls, which a per-call contract cannot see)" % _p)]
